@@ -2267,7 +2267,7 @@ func init() {
 		ID:    "C05",
 		Level: "exploration",
 		Rule: "typed osmjson document models (every optional key a present/absent bit) from the harness generator: (a) fixed minimal documents; (b) all 32 combinations of generator/copyright/attribution/license/bounds for each version spelling (absent, number, string, null); " +
-			"(c) per element kind every optional part alone and all-but-it; (c') boundary values: on the value side every operator of a fixed table (non-nil pointer to an all-zero struct for top-level / way / relation bounds, committed, discussion, nested change and its blocks; empty but non-nil slices; zero ids, versions, coordinates, timestamps; empty strings; all-zero elements and members) alone, combined with an all-zero top-level bounds, and all at once, on four base containers, each as osm.OSM, as every block of an osm.Change and element by element; on the document side written values drawn as 0 / \"\" / [] / {} (bounds with members left out) with probability 15-100 %; (c'') retained output: every MarshalJSON method of the library (OSM, Tags, WayNodes, Members, Date) called directly, the bytes kept while other values are marshalled, then checked unchanged and still denoting the original; concurrent: 16 goroutines marshalling / unmarshalling their own documents at once, one phase per codec configuration (codec installed before the goroutines start), plain and race builds; (d) PRNG documents over kind masks, presence probabilities 0..100 %, 0-12 elements, arbitrary UTF-8 incl. control characters, negative and >2^40 ids, equivalent float and RFC 3339 spellings, unknown keys at every level; (e) change documents. " +
+			"(c) per element kind every optional part alone and all-but-it; (c') boundary values: on the value side every operator of a fixed table (non-nil pointer to an all-zero struct for top-level / way / relation bounds, committed, discussion, nested change and its blocks; empty but non-nil slices; zero ids, versions, coordinates, timestamps; empty strings; all-zero elements and members) alone, combined with an all-zero top-level bounds, and all at once, on four base containers, each as osm.OSM, as every block of an osm.Change and element by element; on the document side written values drawn as 0 / \"\" / [] / {} (bounds with members left out) with probability 15-100 %; (c3) forms: osm.OSM, osm.Change, every element kind, Tags, WayNodes, Members, Date (generated and zero values) marshalled as pointer, plain value, struct field by value, field of a pointed-to struct, map value, slice element, array element by value and inside interface{} (slice, map, field), through json.Marshal and through the installed codec itself; shape + round trip of the part that is the value, and equality with the pointer form; (c'') retained output: every MarshalJSON method of the library (OSM, Tags, WayNodes, Members, Date) called directly, the bytes kept while other values are marshalled, then checked unchanged and still denoting the original; concurrent: 16 goroutines marshalling / unmarshalling their own documents at once, one phase per codec configuration (codec installed before the goroutines start), plain and race builds; (d) PRNG documents over kind masks, presence probabilities 0..100 %, 0-12 elements, arbitrary UTF-8 incl. control characters, negative and >2^40 ids, equivalent float and RFC 3339 spellings, unknown keys at every level; (e) change documents. " +
 			"Each model is written by the independent writer (shuffled keys, white space, \\u escapes) and unmarshalled, and the value it denotes (plus way-node annotations) is marshalled, shape-checked on a generic parse and unmarshalled again; every step under the default and the recording user codec (a quarter of the cases also with only one of the two hooks installed). " +
 			"One evaluation = one (model, flow, configuration); a signature is (flow, configuration, version spelling, top-level presence mask, bounds, unknown keys, element kinds present).",
 		Assumptions: []string{
